@@ -5,6 +5,12 @@ from collections import ChainMap
 from ..consteval import CantEval, FuncRef
 from ..index import FuncInfo, dotted, walk_no_nested, loc
 from ..symeval import Obj, PureInterp, Raised, Unsupported, tok
+
+
+def _mk_instance(*a, **k):
+    from .evalhelpers import make_instance
+    return make_instance(*a, **k)
+
 from .persist import _calls
 
 CONF = "gwf.conf"
@@ -233,7 +239,10 @@ def rule_backend_namespace(ctx, r):
         ci = idx.cls(f"{mod}:{cname}")
         fields = [f[0] for f in ci.fields if not (isinstance(f[2], ast.Call) and any(k.arg == "init" and isinstance(k.value, ast.Constant) and k.value.value is False for k in f[2].keywords))]
         got = fac.positional_params()
-        r.check(got == params, f"{fac.module.relpath}::{fac.qual}::params", f"factory accepts {params}", f"the backend factory accepts {got}, documented settings are {params[1:]}", fac.where)
+        # the settings the property names must be accepted by name; a further setting with a default of its own does not take anything away from them
+        missing = [p for p in params if p not in fac.all_param_names()]
+        r.check(not missing, f"{fac.module.relpath}::{fac.qual}::params", f"factory accepts {params}",
+                f"the backend factory accepts {got}; the settings {missing} of the property cannot reach the backend", fac.where)
         ok = False
         for c in _calls(fac.node):
             if isinstance(c.func, ast.Name) and c.func.id == cname:
@@ -279,7 +288,7 @@ def rule_backend_namespace(ctx, r):
              "time.sleep": lambda *a: None}
     interp = PureInterp(ctx, hooks=hooks)
     interp.max_depth = 8
-    ops = Obj("ops", working_dir=tok("PROJ"), host="HOSTNAME", port=4711, target_defaults={}, **{"__class__": lo})
+    ops = _mk_instance(ctx, lo, "ops", working_dir=tok("PROJ"), host="HOSTNAME", port=4711, target_defaults={})
     res_ = None
     try:
         for m in lo.methods.values():
